@@ -677,6 +677,30 @@ def rule_map_discovery(c, R, F, inline_value):
     c.floor(R, "marker tests", len(receivers), 3)
 
 
+def _is_dirname_helper(F, name):
+    """a local one-parameter function that gives the directory part of a file name: `path.dirname(p)`, or
+    `p.split(path.sep)` with the last segment popped and the rest joined by `path.sep` again"""
+    fn = F.decls.get(name)
+    if fn is None:
+        return False
+    ps = F.params(fn)
+    if len(ps) != 1:
+        return False
+    calls = [n for n in jsast.walk(fn) if n.get("type") == "CallExpression"]
+    if any(chain(n) == ["path", "dirname"] and len(args(n)) == 1 and jsast.ident_name(args(n)[0]) == ps[0] for n in calls):
+        return True
+    sep = lambda n: len(args(n)) == 1 and jsast.member_chain(args(n)[0]) == ["path", "sep"]
+    split = [n for n in calls if chain(n)[-1:] == ["split"] and chain(n)[:-1] == [ps[0]] and sep(n)]
+    pops = [n for n in calls if chain(n)[-1:] == ["pop"] and not args(n)]
+    joins = [n for n in calls if chain(n)[-1:] == ["join"] and sep(n)]
+    if len(split) == 1 and len(pops) == 1 and len(joins) == 1 and len(calls) == 3:
+        # one array: split -> pop -> join on the same name
+        r = F.resolve_const(fn)
+        arr = chain(pops[0])[0]
+        return chain(joins[0])[0] == arr and r(arr) is split[0]
+    return False
+
+
 def rule_lookup(c, R, F):
     """getPathAndLine: the map is consulted exactly when there is one"""
     jf = F.jf
@@ -700,7 +724,7 @@ def rule_lookup(c, R, F):
                 r = F.resolve_const(top)
                 if d.get("type") == "Identifier" and r(d["value"]) is not None:
                     d = JF.unparen(r(d["value"]))
-                okj = d.get("type") == "CallExpression" and len(args(d)) == 1 and jsast.ident_name(args(d)[0]) == F.params(top)[1] and chain(d) in (["getFilePathFromName"], ["path", "dirname"])
+                okj = d.get("type") == "CallExpression" and len(args(d)) == 1 and jsast.ident_name(args(d)[0]) == F.params(top)[1] and (chain(d) == ["path", "dirname"] or (len(chain(d)) == 1 and _is_dirname_helper(F, chain(d)[0])))
         c.expect(okj, R, R + "/lookup-path", jf.loc(n), "path = directory of the file + originalSource", "the reported path is not the original source joined to the directory of the file name")
 
 
@@ -1332,7 +1356,14 @@ def rule_map_table(c, R, nsm, sm):
     c.expect(bool(used) and used <= keys, R, R + "/entry-keys", jf.loc(fe), "the glue reads %s, all returned by findEntry" % sorted(used), "the glue reads %s from findEntry's result, which only has %s" % (sorted(used - keys), sorted(keys)))
     # the search: halving steps on a lexicographic (line, column) comparison; the left half is kept iff
     # the position is before the probe
-    loops = [x for x in jsast.walk(fe) if x.get("type") == "WhileStatement"]
+    # ... in findEntry itself or in a local helper it hands the table and the position to (the helper's
+    # parameters are then read as those arguments)
+    loops = [(x, fe, {}) for x in jsast.walk(fe) if x.get("type") == "WhileStatement"]
+    for cl_ in [x for x in jsast.walk(fe) if x.get("type") == "CallExpression" and len(chain(x)) == 1 and chain(x)[0] in F.decls]:
+        h_ = F.decls[chain(cl_)[0]]
+        if any(JF.text(a_).endswith("_mappings") for a_ in args(cl_)):
+            ren_ = {p_: JF.text(args(cl_)[k_]) for k_, p_ in enumerate(F.params(h_)) if p_ is not None and k_ < len(args(cl_))}
+            loops += [(x, h_, ren_) for x in jsast.walk(h_) if x.get("type") == "WhileStatement"]
     c.floor(R, "search loops in findEntry", len(loops), 1)
     LT0, EQ0, LT1 = BF.atom("line<probe.line"), BF.atom("line=probe.line"), BF.atom("col<probe.col")
     lex = BF.disj([LT0, BF.conj([EQ0, LT1])])
@@ -1373,15 +1404,17 @@ def rule_map_table(c, R, nsm, sm):
                     return LT1 if a_ is l else None
         return None
 
-    for lp in loops:
+    for lp, lfn_, lren_ in loops:
         ifs = [x for x in jsast.walk(lp["body"]) if x.get("type") == "IfStatement"]
         okl = False
+        old_ren_ = JF.REN[0]
+        JF.REN[0] = dict(old_ren_, **lren_)
         for st_ in ifs:
             pd_ = [d for d in jsast.walk(lp) if d.get("type") == "VariableDeclarator" and d.get("init") is not None and JF.unparen(d["init"]).get("type") == "MemberExpression" and JF.text(JF.unparen(d["init"])["object"]).endswith("_mappings")]
             probes = {jsast.ident_name(d["id"]) for d in pd_ if jsast.ident_name(d["id"])} | {JF.text(JF.unparen(d["init"])) for d in pd_}
             # the index the probe is read at (`middle`)
             probe_idx = {JF.text(JF.unparen(JF.unparen(d["init"])["property"].get("expression") or {})) for d in pd_ if JF.unparen(d["init"])["property"].get("type") == "Computed"}
-            f_ = JF.formula(st_["test"], lambda e: probe_atom(e, probes), F.resolve_const(fe))
+            f_ = JF.formula(st_["test"], lambda e: probe_atom(e, probes), F.resolve_const(lfn_))
             swapped = False
             if not equivalent(f_, lex):
                 if equivalent(f_, BF.neg(lex)) and st_.get("alternate") is not None:
@@ -1402,6 +1435,7 @@ def rule_map_table(c, R, nsm, sm):
                 shrinks = [x for x in alt_a if x["operator"] == "-=" and JF.text(x["left"]) == cnt and JF.text(x["right"]) == stp]
                 okl = len(moves) == 1 and len(shrinks) == 1 and cnt != stp
             c.expect(okl, R, R + "/search-step", jf.loc(st_), "position before the probe: keep the left half; otherwise move to the probe and keep the rest", "the halving step is %s / %s" % (cons, alt))
+        JF.REN[0] = old_ren_
         c.expect(okl, R, R + "/search-order", jf.loc(lp), "the probe is compared lexicographically on (generated line, generated column)", "findEntry does not compare (line, column) lexicographically with the probed segment")
 
 
